@@ -228,7 +228,7 @@ _C03_SCEN = [  # (scenario, threads, quick cases, thorough cases)
 PROPS['C03'] = {
     'technique': 'ThreadSanitizer (happens-before race detection) over the shared multi-threaded scenario library; guarded fence annotation',
     'level_text': ('No ThreadSanitizer report (de-duplicated by the pair of outermost cocls frames) in any executed round of the multi-threaded scenario '
-                   'library of all other properties, compiled -fsanitize=thread, with the harness adding no synchronisation inside a round '
+                   'library of all other properties, compiled -fsanitize=thread twice (NDEBUG, and with the library assertions enabled - assertions read shared state too: D11, D17), with the harness adding no synchronisation inside a round '
                    '(hook handler and monitors use relaxed non-RMW atomics only). TSan decides on happens-before of executed accesses, so a missing '
                    'release/acquire is reported on x86 although the hardware hides it.'),
     'level_note': ('Limits: only access pairs the workload executed; std::atomic_thread_fence is modelled through the guarded __tsan_acquire annotation '
